@@ -134,7 +134,7 @@ def run_history(rng, counters, digests, samples, violations, known, layered, nop
             inv = mgrmon.inversions(runs, info)
             kf1_hit = False
             if inv:
-                ok, why, _ = mgrmon.classify_kf1(ls.runner.mgr, runs, info)
+                ok, why, _ = mgrmon.classify_kf1(ls.runner.mgr, runs, info, mgrmon.task_kinds(hg.shadow))
                 if ok and kf.is_open("KF1", ID):
                     kf1_hit = True
                     known.append(kf.known("KF1"))
@@ -285,7 +285,7 @@ def run_shard(spec):
                 problems, runs = analyze_window(list(C.EVENTS), ls.runner.mgr, ref, R, T, counters)
                 info = mgrmon.writers_and_reads(sh, ls.runner)
                 inv = mgrmon.inversions(runs, info)
-                if inv and not mgrmon.classify_kf1(ls.runner.mgr, runs, info)[0]:
+                if inv and not mgrmon.classify_kf1(ls.runner.mgr, runs, info, mgrmon.task_kinds(sh))[0]:
                     problems.append("consumer before producer: %s" % [(str(a), str(b)) for a, b in inv[:3]])
                 return {"kind": "window", "problems": problems} if problems else None
             f, i, ls, sh = lockstep.replay_history(wit["world"], wit["ops"], on_step)
@@ -317,7 +317,7 @@ def run_shard(spec):
                 ls.step(op, None)
                 runs = ls.run_order()
                 info = mgrmon.writers_and_reads(sh, ls.runner)
-                if mgrmon.inversions(runs, info) and mgrmon.classify_kf1(ls.runner.mgr, runs, info)[0]:
+                if mgrmon.inversions(runs, info) and mgrmon.classify_kf1(ls.runner.mgr, runs, info, mgrmon.task_kinds(sh))[0]:
                     hit = True
             if hit:
                 known.append(kf.known("KF1"))
